@@ -118,6 +118,8 @@ pub struct SerObs {
     pub inner_roundtrip: Option<Result<Value, String>>,
     /// newtype round trip: from::<T>(to(v)).into_inner()
     pub t_roundtrip: Option<Result<Value, String>>,
+    /// the same value in container positions: (position, bytes of container<T>, of container<Inner>, of container<RefT>, container<T> read back)
+    pub nested: Vec<(Pos, Result<Vec<u8>, String>, Result<Vec<u8>, String>, Result<Vec<u8>, String>, Option<DeObs>)>,
 }
 
 #[derive(Clone, Debug, PartialEq)]
